@@ -29,14 +29,16 @@ func harnessC13Failures() {
 	deadLetter := vBool()   // the error handler publishes a (non-persistable) dead-letter event on the same bus
 	var busRef *EventBus
 	deadLetters := 0
-	if withHandler {
-		opts = append(opts, WithPersistenceErrorHandler(func(ev any, t reflect.Type, err error) {
-			reports = append(reports, rep{ev, t, err})
-			if deadLetter {
-				deadLetters++
-				Publish(busRef, evB{N: 9000}) // a persistable dead-letter event on the same bus
-			}
-		}))
+	onErr := func(ev any, t reflect.Type, err error) {
+		reports = append(reports, rep{ev, t, err})
+		if deadLetter {
+			deadLetters++
+			Publish(busRef, evB{N: 9000}) // a persistable dead-letter event on the same bus
+		}
+	}
+	handlerViaSetter := withHandler && vBool() // SetPersistenceErrorHandler after construction
+	if withHandler && !handlerViaSetter {
+		opts = append(opts, WithPersistenceErrorHandler(onErr))
 	}
 	if withTimeout {
 		opts = append(opts, WithPersistenceTimeout(time.Second))
@@ -45,6 +47,9 @@ func harnessC13Failures() {
 		opts = append(opts, WithObservability(&c20Obs{}))
 	}
 	bus := New(opts...)
+	if handlerViaSetter {
+		bus.SetPersistenceErrorHandler(onErr)
+	}
 	busRef = bus
 	var gotA []int
 	gotBad := 0
